@@ -323,6 +323,25 @@ func init() {
 			})
 			return
 		}
+		// the existence tests that decide "missing delete" / "duplicate write": first statement of the two loops
+		loopGuard := func(over string) string {
+			g := ""
+			ast.Inspect(wr.Body, func(n ast.Node) bool {
+				rs, ok := n.(*ast.RangeStmt)
+				if !ok || src(fset, rs.X) != over || g != "" || len(rs.Body.List) == 0 {
+					return true
+				}
+				if is, ok := rs.Body.List[0].(*ast.IfStmt); ok && is.Init != nil {
+					g = src(fset, is.Init) + "; " + src(fset, is.Cond)
+				}
+				return false
+			})
+			return g
+		}
+		sqlMissingGuard, sqlDupGuard := loopGuard("deletes"), loopGuard("writes")
+		if sqlMissingGuard == "" || sqlDupGuard == "" {
+			return Result{}, fmt.Errorf("sqlite.write: existence test at the head of the deletes / writes loop not recognised")
+		}
 		sqlIgnoreMissing, _ := swCases("opts.OnMissingDelete")
 		sqlIgnoreDup, _ := swCases("opts.OnDuplicateInsert")
 
@@ -609,6 +628,9 @@ func init() {
 		sb.WriteString("def sqlCondCompare : String := " + leanStr(sqlCondCmp) + "\n")
 		sb.WriteString("def sqlIgnoreMissingCase : String := " + leanStr(sqlIgnoreMissing) + "\n")
 		sb.WriteString("def sqlIgnoreDupCase : String := " + leanStr(sqlIgnoreDup) + "\n")
+		sb.WriteString("/-- the existence tests at the head of the deletes / writes loops of sqlite.write -/\n")
+		sb.WriteString("def sqlMissingGuard : String := " + leanStr(sqlMissingGuard) + "\n")
+		sb.WriteString("def sqlDupGuard : String := " + leanStr(sqlDupGuard) + "\n")
 		sb.WriteString("def sqlHorizonWhere : String := " + leanStr(sqlHorizon) + "\n")
 		sb.WriteString("def sqlOrderBy : List String := " + leanStrList([]string{sqlAsc, sqlDesc}) + "\n")
 		sb.WriteString("def sqlTypeWhere : String := " + leanStr(sqlTypeWhere) + "\n")
